@@ -147,6 +147,7 @@ func buildEventQuery(
 		if f.Tags != nil {
 			sub = sub.Distinct()
 
+			n := 0
 			for key, values := range f.Tags {
 				tagHashes := make([][]byte, len(values))
 				for i, value := range values {
@@ -154,7 +155,9 @@ func buildEventQuery(
 					tagHashes[i] = b[:]
 				}
 
-				etag := t.As("etag" + key)
+				// SQL identifiers are case-insensitive: "#e" and "#E" need different aliases.
+				etag := t.As(fmt.Sprintf("etag%d", n))
+				n++
 
 				sub = sub.
 					Join(etag, goqu.On(
